@@ -14,7 +14,7 @@ package samlsp
 //@ requires[cfg] cfg: c.SigningMethod != nil && c.Key != nil
 //@ ensures[C16] nil_iff_err: (result == nil) == (err != nil)
 //@ -- exactly one allowed signing method: the codec's own
-//@ assert@call[C16] ParseWithClaims #1 (p *jwt.Parser, token string) allowed_methods:
+//@ assert@call[C16] ParseWithClaims #each (p *jwt.Parser, token string) allowed_methods:
 //@    p != nil && len(p.ValidMethods) == 1 && p.ValidMethods[0] == c.SigningMethod.Alg() && token == signed
 //@ -- and the parser's own claims validation (exp, nbf: the session's lifetime) stays on
 //@ assert@call[C16] ParseWithClaims #each (p *jwt.Parser, token string) parser_checks_expiry: !p.SkipClaimsValidation
@@ -35,7 +35,7 @@ package samlsp
 //@ -- already holds - repeated attributes lose nothing - and the session index is appended likewise
 //@ -- (prev: what the attribute map held under k before the update - whether the map is the claims' field or a local that
 //@ -- becomes it)
-//@ assert@store[C16] Attributes[] #1 (k string, v []string, prev []string) uses attr saml.Attribute appends_value_under_claim_name:
+//@ assert@store[C16] Attributes[] #each (k string, v []string, prev []string) uses attr saml.Attribute appends_value_under_claim_name:
 //@    (attr.FriendlyName != "" ==> k == attr.FriendlyName) && (attr.FriendlyName == "" ==> k == attr.Name) &&
 //@    len(v) == len(prev)+1 &&
 //@    exists(0, len(attr.Values), func(j int) bool { return v[len(v)-1] == attr.Values[j].Value }) &&
@@ -46,22 +46,22 @@ package samlsp
 //@ -- a session token is signed with the codec's own method and key, over exactly the given claims
 //@ contract (JWTSessionCodec).Encode
 //@ requires[cfg] cfg: c.SigningMethod != nil && c.Key != nil
-//@ assert@call[C16] NewWithClaims #1 (m jwt.SigningMethod, cl jwt.Claims) uses claims JWTSessionClaims own_method_given_claims:
+//@ assert@call[C16] NewWithClaims #each (m jwt.SigningMethod, cl jwt.Claims) uses claims JWTSessionClaims own_method_given_claims:
 //@    m == c.SigningMethod && isSessionClaims(s) && sameClaims(sessionClaimsOf(cl), claims) && sameClaims(claims, sessionClaims(s))
 //@ go func sameClaims(a, b JWTSessionClaims) bool
-//@ assert@call[C16] SignedString #1 (tok *jwt.Token, key interface{}) own_key: key == c.Key
+//@ assert@call[C16] SignedString #each (tok *jwt.Token, key interface{}) own_key: key == c.Key
 //@ go func sessionClaimsOf(c jwt.Claims) JWTSessionClaims { x, _ := c.(JWTSessionClaims); return x }
 //@ contract (CookieSessionProvider).GetSession
 //@ requires[cfg] r: r != nil && c.Codec != nil
 //@ -- a session comes only from decoding the cookie with the configured name
-//@ assert@call[C16] Decode #1 (codec SessionCodec, signed string) uses cookie *http.Cookie decodes_named_cookie:
+//@ assert@call[C16] Decode #each (codec SessionCodec, signed string) uses cookie *http.Cookie decodes_named_cookie:
 //@    cookie != nil && cookie.Name == c.Name && signed == cookie.Value
 //@ ensures[C16] session_only_without_error: result != nil ==> err == nil
 
 //@ contract (CookieSessionProvider).CreateSession
 //@ requires[cfg] r: r != nil && r.URL != nil && c.Codec != nil
 //@ -- C17: the session cookie keeps the configured HttpOnly flag and is Secure on https
-//@ assert@call[C17] SetCookie #1 (w2 http.ResponseWriter, ck *http.Cookie) cookie_flags:
+//@ assert@call[C17] SetCookie #each (w2 http.ResponseWriter, ck *http.Cookie) cookie_flags:
 //@    ck != nil && ck.HttpOnly == c.HTTPOnly && ck.Secure == (c.Secure || r.URL.Scheme == "https") && ck.Name == c.Name
 
 //@ -- ------------------------------------------------------------------------------------------
@@ -70,17 +70,17 @@ package samlsp
 //@ contract (JWTTrackedRequestCodec).Decode
 //@ requires[cfg] cfg: s.SigningMethod != nil && s.Key != nil
 //@ ensures[C04,C17] nil_iff_err: (result == nil) == (err != nil)
-//@ assert@call[C04,C17] ParseWithClaims #1 (p *jwt.Parser, token string) allowed_methods:
+//@ assert@call[C04,C17] ParseWithClaims #each (p *jwt.Parser, token string) allowed_methods:
 //@    p != nil && len(p.ValidMethods) == 1 && p.ValidMethods[0] == s.SigningMethod.Alg() && token == signed
 //@ -- and it is the parser that enforces the lifetime fixed at mint time (exp, nbf): its claims validation stays on
 //@ assert@call[C04,C17] ParseWithClaims #each (p *jwt.Parser, token string) parser_checks_expiry: !p.SkipClaimsValidation
 //@ -- a tracked request is returned only for tokens carrying the tracking marker (a session token is not one)
-//@ assert@store[C04,C17] Index #1 uses claims JWTTrackedRequestClaims only_marked_tokens:
+//@ assert@store[C04,C17] Index #each uses claims JWTTrackedRequestClaims only_marked_tokens:
 //@    claims.SAMLAuthnRequest && claims.Issuer == s.Issuer && s.Issuer != ""
 
 //@ contract (JWTTrackedRequestCodec).Encode
 //@ -- the tracking lifetime is fixed at mint time: exp = now + MaxAge
-//@ assert@call[C17] NewWithClaims #1 (m jwt.SigningMethod, cl jwt.Claims) lifetime:
+//@ assert@call[C17] NewWithClaims #each (m jwt.SigningMethod, cl jwt.Claims) lifetime:
 //@    trackedClaims(cl).ExpiresAt == jwt.NewNumericDate(saml.TimeNow().Add(s.MaxAge)) && trackedClaims(cl).SAMLAuthnRequest &&
 //@    trackedClaims(cl).Subject == value.Index && trackedClaims(cl).Issuer == s.Issuer
 //@ go func trackedClaims(c jwt.Claims) JWTTrackedRequestClaims { x, _ := c.(JWTTrackedRequestClaims); return x }
@@ -108,7 +108,7 @@ package samlsp
 //@ requires[cfg] r: r != nil && t.Codec != nil
 //@ ensures[C17] nil_iff_err: (result == nil) == (err != nil)
 //@ ensures[C17] index: err == nil ==> result.Index == index
-//@ assert@call[C17] Decode #1 (codec TrackedRequestCodec, signed string) uses cookie *http.Cookie decodes_named_cookie:
+//@ assert@call[C17] Decode #each (codec TrackedRequestCodec, signed string) uses cookie *http.Cookie decodes_named_cookie:
 //@    cookie != nil && cookie.Name == t.NamePrefix+index && signed == cookie.Value
 //@ -- and what is returned is what the codec decoded from that cookie's value - the index compared with the requested one is
 //@ -- the index the signed token carries, not one derived from the cookie's name
@@ -118,10 +118,15 @@ package samlsp
 //@ contract (CookieRequestTracker).TrackRequest
 //@ requires[cfg] r: r != nil && r.URL != nil && t.Codec != nil && t.ServiceProvider != nil
 //@ -- the tracking cookie is named after the index it carries, scoped to the ACS path, HttpOnly, with the tracker's lifetime
-//@ assert@call[C17] SetCookie #1 (w2 http.ResponseWriter, ck *http.Cookie) uses trackedRequest TrackedRequest tracking_cookie:
+//@ assert@call[C17] SetCookie #each (w2 http.ResponseWriter, ck *http.Cookie) uses trackedRequest TrackedRequest tracking_cookie:
 //@    ck != nil && ck.Name == t.NamePrefix+trackedRequest.Index && ck.Path == t.ServiceProvider.AcsURL.Path && ck.HttpOnly &&
 //@    trackedRequest.SAMLRequestID == samlRequestID
-//@ assert@call[C17] Encode #1 (codec TrackedRequestCodec, v TrackedRequest) encodes_this_request:
+//@ -- ... and its value is the encoding of the tracked request AS IT STANDS when the cookie is set: the index inside the
+//@ -- signed token is the index in the cookie's name (a token encoded before the relay-state override names another flow,
+//@ -- and the reader, which compares the two, turns the authentic cookie away)
+//@ assert@call[C17] SetCookie #each (w2 http.ResponseWriter, ck *http.Cookie) uses trackedRequest TrackedRequest cookie_value_encodes_what_its_name_says:
+//@    ck != nil && EncodedTracked(t.Codec, trackedRequest, ck.Value)
+//@ assert@call[C17] Encode #each (codec TrackedRequestCodec, v TrackedRequest) encodes_this_request:
 //@    v.SAMLRequestID == samlRequestID && v.URI == r.URL.String()
 
 //@ contract (CookieRequestTracker).GetTrackedRequests
@@ -170,7 +175,7 @@ package samlsp
 //@ -- the outstanding IDs handed to the SP are exactly: "" when IdP-initiated login is allowed, plus IDs the configured
 //@ -- tracker lists for this request (TrackedOf: what RequestTracker.GetTrackedRequests returned for it) - stated over the
 //@ -- argument of the call, not over the locals it happens to be assembled in
-//@ assert@call[C04,C17] ParseResponse #1 (sp *saml.ServiceProvider, rq *http.Request, ids []string) ids_from_tracker:
+//@ assert@call[C04,C17] ParseResponse #each (sp *saml.ServiceProvider, rq *http.Request, ids []string) ids_from_tracker:
 //@    rq == r && forall(0, len(ids), func(k int) bool {
 //@      return (ids[k] == "" && m.ServiceProvider.AllowIDPInitiated) || trackedID(m.RequestTracker, r, ids[k]) })
 
@@ -194,7 +199,7 @@ package samlsp
 //@ ghost func allocatedHereBytes(b []byte) bool
 //@ assert@return[C17] #each (out []byte) own_memory: allocatedHereBytes(out)
 //@ ensures[C17] length: len(result) == n
-//@ assert@call[C17] io.ReadFull #1 (r io.Reader, buf []byte) uses rv []byte fills_all_from_configured_source:
+//@ assert@call[C17] io.ReadFull #each (r io.Reader, buf []byte) uses rv []byte fills_all_from_configured_source:
 //@    r == saml.RandReader && sameBytes(buf, rv) && len(buf) == n
 
 //@ -- the default service provider: options are passed through unchanged; requests are signed exactly when asked, with the
@@ -220,15 +225,15 @@ package samlsp
 //@ -- the tracking cookie that is cleared is the one named by the index, on the ACS path
 //@ contract (CookieRequestTracker).StopTrackingRequest
 //@ requires[cfg] r: r != nil && w != nil && t.ServiceProvider != nil
-//@ assert@call[C17] Cookie #1 (rq *http.Request, name string) looks_up_named_cookie: rq == r && name == t.NamePrefix+index
-//@ assert@call[C17] SetCookie #1 (w2 http.ResponseWriter, ck *http.Cookie) uses cookie *http.Cookie clears_that_cookie:
+//@ assert@call[C17] Cookie #each (rq *http.Request, name string) looks_up_named_cookie: rq == r && name == t.NamePrefix+index
+//@ assert@call[C17] SetCookie #each (w2 http.ResponseWriter, ck *http.Cookie) uses cookie *http.Cookie clears_that_cookie:
 //@    ck == cookie && ck != nil && ck.Value == "" && ck.Path == t.ServiceProvider.AcsURL.Path && ck.Name == t.NamePrefix+index
 
 //@ -- routing: the assertion consumer runs only for the ACS path, the metadata handler only for the metadata path
 //@ contract (*Middleware).ServeHTTP
 //@ requires[cfg] r: r != nil && r.URL != nil && w != nil
-//@ assert@call[C17] ServeACS #1 (mm *Middleware, w2 http.ResponseWriter, r2 *http.Request) acs_path_only: r2 == r && r.URL.Path == m.ServiceProvider.AcsURL.Path
-//@ assert@call[C17] ServeMetadata #1 (mm *Middleware, w2 http.ResponseWriter, r2 *http.Request) metadata_path_only: r2 == r && r.URL.Path == m.ServiceProvider.MetadataURL.Path
+//@ assert@call[C17] ServeACS #each (mm *Middleware, w2 http.ResponseWriter, r2 *http.Request) acs_path_only: r2 == r && r.URL.Path == m.ServiceProvider.AcsURL.Path
+//@ assert@call[C17] ServeMetadata #each (mm *Middleware, w2 http.ResponseWriter, r2 *http.Request) metadata_path_only: r2 == r && r.URL.Path == m.ServiceProvider.MetadataURL.Path
 
 //@ -- starting a flow: the request is built for the binding it is then emitted with (POST-binding requests are the ones the
 //@ -- core signs envelopedly, redirects are signed over the query), towards that binding's endpoint; the tracked ID is the
@@ -237,13 +242,13 @@ package samlsp
 //@ requires[cfg] m: middlewareConfigured(m)
 //@ requires[cfg] r: r != nil && r.URL != nil && w != nil
 //@ requires[cfg] sp: m.ServiceProvider.IDPMetadata != nil && (len(m.ServiceProvider.SignatureMethod) == 0 || m.ServiceProvider.Certificate != nil)
-//@ assert@call[C12,C13,C17] MakeAuthenticationRequest #1 (s *saml.ServiceProvider, idpURL string, b string, rb string) uses binding string, bindingLocation string request_for_emitted_binding:
+//@ assert@call[C12,C13,C17] MakeAuthenticationRequest #each (s *saml.ServiceProvider, idpURL string, b string, rb string) uses binding string, bindingLocation string request_for_emitted_binding:
 //@    b == binding && idpURL == bindingLocation && rb == m.ResponseBinding && (binding == saml.HTTPRedirectBinding || binding == saml.HTTPPostBinding || binding == m.Binding)
-//@ assert@call[C17] TrackRequest #1 (t RequestTracker, w2 http.ResponseWriter, r2 *http.Request, id string) uses authReq *saml.AuthnRequest tracks_this_request:
+//@ assert@call[C17] TrackRequest #each (t RequestTracker, w2 http.ResponseWriter, r2 *http.Request, id string) uses authReq *saml.AuthnRequest tracks_this_request:
 //@    authReq != nil && id == authReq.ID && r2 == r
-//@ assert@call[C12,C13] Redirect #1 (a *saml.AuthnRequest, rs string, s *saml.ServiceProvider) uses authReq *saml.AuthnRequest, binding string, relayState string redirect_emits_redirect_request:
+//@ assert@call[C12,C13] Redirect #each (a *saml.AuthnRequest, rs string, s *saml.ServiceProvider) uses authReq *saml.AuthnRequest, binding string, relayState string redirect_emits_redirect_request:
 //@    a == authReq && binding == saml.HTTPRedirectBinding && rs == relayState
-//@ assert@call[C12,C13] Post #1 (a *saml.AuthnRequest, rs string) uses authReq *saml.AuthnRequest, binding string, relayState string post_emits_post_request:
+//@ assert@call[C12,C13] Post #each (a *saml.AuthnRequest, rs string) uses authReq *saml.AuthnRequest, binding string, relayState string post_emits_post_request:
 //@    a == authReq && binding == saml.HTTPPostBinding && rs == relayState
 
 //@ -- C16: the gatekeeping function literals. RequireAccount$1 is the handler RequireAccount returns;
@@ -251,19 +256,19 @@ package samlsp
 //@ contract (*Middleware).RequireAccount$1
 //@ requires[cfg] r: r != nil && r.URL != nil && w != nil
 //@ -- the wrapped handler runs only with the session the provider returned, placed in the request context
-//@ assert@call[C16] ServeHTTP #1 (h http.Handler, w2 http.ResponseWriter, r2 *http.Request) uses session Session serves_only_with_session:
+//@ assert@call[C16] ServeHTTP #each (h http.Handler, w2 http.ResponseWriter, r2 *http.Request) uses session Session serves_only_with_session:
 //@    session != nil
-//@ assert@call[C16] ContextWithSession #1 (ctx context.Context, s Session) uses session Session exposes_that_session:
+//@ assert@call[C16] ContextWithSession #each (ctx context.Context, s Session) uses session Session exposes_that_session:
 //@    s == session
 //@ -- no session: a new flow only for the "no session" error, every other error goes to the error handler
-//@ assert@call[C16] HandleStartAuthFlow #1 (mm *Middleware, w2 http.ResponseWriter, r2 *http.Request) uses session Session, err error flow_only_without_session:
+//@ assert@call[C16] HandleStartAuthFlow #each (mm *Middleware, w2 http.ResponseWriter, r2 *http.Request) uses session Session, err error flow_only_without_session:
 //@    session == nil && err == ErrNoSession
 
 //@ contract RequireAttribute$1$1
 //@ requires[cfg] r: r != nil && w != nil
 //@ -- admitted only with a session in the context whose attribute map lists the required value under the required name
 //@ -- (stated over the attribute map, not over the loop variable and the comma-ok flag of one way to search it)
-//@ assert@call[C16] ServeHTTP #1 (h http.Handler, w2 http.ResponseWriter, r2 *http.Request) uses session Session, attributes Attributes, name string, value string admits_only_on_match:
+//@ assert@call[C16] ServeHTTP #each (h http.Handler, w2 http.ResponseWriter, r2 *http.Request) uses session Session, attributes Attributes, name string, value string admits_only_on_match:
 //@    session != nil && exists(0, len(attributes[name]), func(k int) bool { return attributes[name][k] == value })
-//@ assert@call[C16] GetAttributes #1 (sa SessionWithAttributes) uses session Session attributes_of_context_session:
+//@ assert@call[C16] GetAttributes #each (sa SessionWithAttributes) uses session Session attributes_of_context_session:
 //@    sa == session.(SessionWithAttributes)
